@@ -149,6 +149,14 @@ def job_cfg(job):
                 bad("handshake-rejected", "client rejected the server's SETTINGS: %s %s" % (r.brief(), r.msg))
                 continue
             r2 = H.recv(s, r.raw)
+            # everything is delivered and acknowledged: the client's receive window for stream 1 and the server's send window
+            # for it are the same number (also after a change of INITIAL_WINDOW_SIZE that was pending during the upgrade)
+            try:
+                ws, wc = s.local_flow_control_window(1), c.remote_flow_control_window(1)
+            except Exception as e:  # noqa: BLE001
+                ws, wc = "error", repr(e)
+            if ws != wc:
+                bad("stream-1-windows-disagree", "after the handshake the server may send %r bytes on stream 1, the client accepts %r" % (ws, wc))
             # calls that must be refused on the upgraded connection leave it as it was ("both then continue as a normal connection")
             cc = pickle.loads(pickle.dumps(c))
             r0 = H.call(cc, "send_data", 1, b"x" * 1500)          # no request body on the upgraded stream
